@@ -29,7 +29,8 @@ def gen_cases(prop, tier, seed):
         forced = [dict(labels="cold", cmode="none"), dict(labels="lastone", cmode="none"),
                   dict(data="grid", batch="2-3"), dict(data="dups", batch="exact"),
                   dict(data="const", batch="over"), dict(labels="cold", batch="over"),
-                  dict(data="far"), dict(labels="oneclass"), dict(labels="unobserved")]
+                  dict(data="far"), dict(labels="oneclass"), dict(labels="unobserved"),
+                  dict(data="bow", batch="exact"), dict(data="bow", batch="over", labels="one")]
         for j, f in enumerate(forced):
             for i in range(r):
                 cases.append(poolcase.describe(name, stable_hash(seed, prop, name, "forced", j, i), **f))
